@@ -671,3 +671,6 @@ def run(ctx):
     sched.ob_wrapper_passes_through(ctx, 3)      # "first container in arrival order": arrivals reach the policy in the tick and order in which they came
     check_pool_break(ctx)
     check_pool_queue_fifo(ctx)
+    # "left waiting only when the pools are depleted" presupposes that what arrives is queued at all (#4)
+    sched.ob_arrivals_considered(ctx, 4, "priority", "priority")
+    sched.ob_arrivals_considered(ctx, 4, "priority-pool", "priority-pool")
